@@ -388,15 +388,27 @@ func (fv *FV) tryGoal(st *State, e *Expr, env *Env) (g string, stale string) {
 // tryAssume assumes a loop invariant at the loop head unless it cannot be evaluated any more
 // (it then has a failed obligation of its own, see tryGoal).
 func (fv *FV) tryAssume(st *State, e *Expr, env *Env) {
-	defer func() {
-		if r := recover(); r != nil {
-			if _, ok := r.(specFail); ok {
-				return
+	// dry run on a copy first: a partly evaluated invariant must not leave conjuncts assumed
+	// whose obligation (the whole invariant) is reported as failed
+	ok := func() (ok bool) {
+		defer func() {
+			if r := recover(); r != nil {
+				if _, isSF := r.(specFail); isSF {
+					ok = false
+					return
+				}
+				panic(r)
 			}
-			panic(r)
-		}
+		}()
+		tmp := st.clone()
+		tenv := *env
+		tenv.st = tmp
+		fv.assumeSpec(tmp, e, &tenv)
+		return true
 	}()
-	fv.assumeSpec(st, e, env)
+	if ok {
+		fv.assumeSpec(st, e, env)
+	}
 }
 
 
